@@ -13,6 +13,11 @@ CHECKS = {
             "partners for two-operand pairs in quick, full 68x68 in thorough); each emitted statement is decoded by an independent decoder "
             "written from the handbook and compared with the abstract instruction, including emitted length.",
             "Trusts the handbook-derived decoder in vlib/pdp11_ref.py; ~25 non-DEC mnemonics are compared with a frozen transcription only.", "3 C01"),
+    "C04": ("exploration", "outcome classifier + independent decoder over one-branch programs (exhaustive mnemonic x offset) and generated relative-operand programs",
+            "Exhaustive over branch mnemonic x byte offset (both limits bracketed) with the distance realised several ways; every accepted "
+            "branch is decoded and its effective target recomputed, every rejected one must fail with branch-out-of-bounds/odd-branch on the "
+            "branch's own line. Relative operands are sampled (positions, preceding extension words, target shapes, wrap-around bases).",
+            "Trusts the handbook rule target = PC after fetch + displacement.", "3 C04"),
     "C13": ("exploration", "independent container readers (bin, RIFF, BK tape demodulator) over outputs of the real format functions and of shim-observed CLI runs",
             "Contract-style wrappers feed the real file_formats functions with synthetic (base, image, name) and decode what they return with "
             "independent readers; CLI runs are observed through an audit-hook/snapshot shim so that the set of files written is compared with "
